@@ -870,7 +870,11 @@ def generated_inputs(wgslgen, prog, rng, n):
     out = []
     wg = prog["entry"]["wg"]
     for j in range(n):
-        gi = wgslgen.gen_inputs(rng.fork("i%d" % j), prog, exact=(j % 3 != 2))
+        # finite, exactly representable float inputs only: WGSL lets an implementation assume that NaNs and infinities are
+        # not present at run time (a comparison such as `x != y` on a NaN is then indeterminate: SPIR-V's ordered
+        # OpFOrdNotEqual and the IR reference disagree there without either being wrong); special values are exercised
+        # operator by operator in the probe table, where each operator's NaN / infinity behaviour is classified
+        gi = wgslgen.gen_inputs(rng.fork("i%d" % j), prog, exact=True)
         bufs = {}
         for g, v in zip(prog["globals"], gi["globals"]):
             if v is not None:
